@@ -29,6 +29,20 @@ P = {'id': 'C01',
               'merged_freqs_cover',
               'ctx_encode_total',
               'xn_encode_total',
+              'ht_deserialize_serialize',
+              'ht_serialized_decodes',
+              'wf_table_prefix_free',
+              'tree_serialized_decodes',
+              'c_deserialize_serialize',
+              'ctx_serialized_decodes',
+              'xn_serialized_decodes',
+              'ctx_new_wf',
+              'ctx_new_roundtrip',
+              'order2_top_contexts',
+              'hm_of_permutes',
+              'par_roundtrip',
+              'par_is_single_lane',
+              'adaptive_huffman_roundtrip',
               'rans_step_inverse',
               'rans_no_overflow',
               'rans_roundtrip',
@@ -57,16 +71,21 @@ P = {'id': 'C01',
              'ContextualHuffmanEncoder::encode (orders 0/1/2, context_map lookup, tree 0 for the first symbols and unmapped contexts); '
              'ContextualHuffmanDecoder::{decode, decode_order0, decode_order1, decode_order2, decode_next_symbol}; encode_with_interleaving / encode_x1..x8 / '
              'encode_xn, build_fast_symbol_table_inner, write_code_from_tree, decode_with_interleaving / decode_x1..x8 / decode_xn, build_decode_table (as the '
-             'function it tabulates), decode_one_symbol, decode_one_symbol_tree; the frequency merge of new_order1 / new_order2',
+             'function it tabulates), decode_one_symbol, decode_one_symbol_tree; the frequency merge of new_order1 / new_order2; HuffmanTree::serialize / '
+             'deserialize and ContextualHuffmanEncoder::serialize / deserialize byte for byte with every check of the deserialisers in its order (HashMap = '
+             'association list with replacing insert); HuffmanTree::from_data and ContextualHuffmanEncoder::new / new_order0 / new_order1 / new_order2 '
+             '(counting loops with checked u32 arithmetic, short-input fallbacks, context HashMap in first-insertion order, merge with the order-0 baseline, '
+             'stable sort / reverse / take(1024) of order 2, context_map.insert + trees.push); src/entropy/parallel.rs ParallelHuffmanEncoder::{new, train, '
+             'encode} and ParallelHuffmanDecoder::{set_tree, decode} as an object with state over histories of calls, AdaptiveParallelEncoder::encode_adaptive '
+             'on its Huffman arms (lane selection by size, train + encode on the member object)',
              'oracle-only cells (direct round-trip oracle on the real code, no mechanism model of their own): simd/<6 tiers> (SimdHuffmanEncoder::encode incl. '
              'the AVX2/BMI2 paths and BitBuffer::append_bits - its output bytes are nevertheless compared with the model of HuffmanEncoder::encode on the same '
-             'table), parallel/<x2,x4,x8>/<4 configs>[/auto_train] (ParallelHuffmanEncoder / ParallelHuffmanDecoder), parallel/adaptive '
-             '(AdaptiveParallelEncoder::encode_adaptive, Huffman choices only), huffman/order0/serialized_tree and every */serialized cell (HuffmanTree / '
-             'ContextualHuffmanEncoder serialize -> deserialize -> decode in the copy), bit_ops/varlen (encode/decode_variable_length_bmi2)',
-             'not modelled: the BinaryHeap construction of the tree (a parameter: the theorems hold for every merge order, `heap_run`; the harness reads the '
-             'real table through HuffmanTree::get_code / serialize); the counting loops of HuffmanEncoder::new / ContextualHuffmanEncoder::new (which contexts '
-             'get a tree, the top-1024 cut of order 2); the byte format of serialize/deserialize (oracle-only; malformed input is property C15); SIMD '
-             'intrinsics; estimate_compression_ratio; thread spawning (none on these paths)',
+             'table), bit_ops/varlen (encode/decode_variable_length_bmi2), the wide/... object-history cells',
+             'not modelled: the BinaryHeap construction of the tree (a parameter: the theorems hold for every merge order, `heap_run` / `heap_any`; the '
+             'harness reads the real table through HuffmanTree::get_code / serialize); the iteration order of HashMaps (a parameter: every permutation, '
+             '`hm_any`); deserialize on tables that are not prefix-free (outcome depends on HashMap order; malformed input is property C15); the f64 entropy '
+             'estimate that selects the algorithm in AdaptiveParallelEncoder; SIMD intrinsics; estimate_compression_ratio; thread spawning (none on these '
+             'paths)',
              'modelled (M+S), second half: src/entropy/rans.rs (Rans64Encoder::new/normalize_frequencies [model of '
              'coq/C02]/encode_symbol/encode/encode_single/encode_parallel, Rans64Decoder::new/decode_symbol/decode/decode_single/decode_parallel) bit-exact '
              'incl. the n-stream layout; src/entropy/dictionary.rs DictionaryCompressor::compress/decompress and OptimizedDictionaryCompressor::decompress '
@@ -85,6 +104,10 @@ P = {'id': 'C01',
                  'agreement of model and code is established on the generated cases only: encoder output bytes (or refusal) of HuffmanEncoder / '
                  "SimdHuffmanEncoder / ContextualHuffmanEncoder::encode / encode_xN given the real tables; decoder output (or Err) on the real encoder's bytes "
                  'at the right length, at wrong lengths and on damaged bytes',
+                 'training texts stay below 2^32 / 100 bytes (the checked u32 arithmetic of the constructors cannot overflow; the bound is a hypothesis of '
+                 'ctx_new_wf / ctx_new_roundtrip and the model returns None = panic beyond it)',
+                 'damaged serialisations in the generated cases are restricted to outcomes that do not depend on HashMap iteration order (refusals, or tables '
+                 'that stay prefix-free)',
                  'crafted encoders are restricted to well-formed tables (prefix-free, non-empty codes of at most 255 bits, a one-symbol table carries the '
                  'one-bit code from_frequencies gives it); what deserialize does with other tables is property C15',
                  'usize is 64 bits; tables have 256 entries; raw counts fit u32',
@@ -103,15 +126,24 @@ P = {'id': 'C01',
                'cursor decoder; codes of any length); encoders whose trees cover all bytes never refuse and the interleaved loop terminates. Five refutation '
                'theorems with witnesses (replayed on the real code from corpus/C01) for the four defects repaired in the tree under verification. The model is '
                'tied to the code on every run by evaluating ~1450 generated cases in Coq against what the implementation returned, with the code tables read '
-               'from the real trees. SIMD, parallel front ends and serialised forms are decided by the round-trip oracle only. || rANS / FSE / LZ half: '
-               'Machine-checked Coq theorems about exact integer models of the rANS-64 coder (byte renormalisation, 1/2/4/8 interleaved streams), of the FSE '
-               'coder of this code base (rANS with 32-bit renormalisation, Alverson reciprocal division, header, stored path, block container and its sniffing '
-               'heuristic) and of the LZ dictionary coder: one encoder step is inverted by one decoder step with the state interval as invariant; '
-               'decode(encode(d)) = d for every well-formed table, every payload, every stream count and every length; the three-pass normaliser keeps the '
-               'table sum at 4096 and every present symbol at >= 1 slot; the reciprocal multiplication is an exact division without u64 wrap; the FSE decoder '
-               'reads four bytes exactly when the encoder wrote four, including the start-up phase; every valid LZ parse decodes to the payload whatever the '
-               'match chooser, and the greedy longest-match search is a sound chooser. Uncovered symbols are refused, never substituted. The models are tied '
-               'to the code by evaluating generated cases in Coq against what the implementation returned (tables, encoder bytes, decoder output).',
+               'from the real trees. Extension: the serialised forms are inside the model - deserialize(serialize(x)) reads the same code tables, order and '
+               'context map back for every table a HashMap<u8, Vec<bool>> can hold and every HashMap iteration order, and the decoders of the copy (order-0, '
+               'contextual, interleaved with every N) decode what the original wrote; the counting loops of ContextualHuffmanEncoder::new are inside the model '
+               '- for every training text (below 42.9 M bytes), every heap behaviour and every HashMap order the constructor returns a well-formed encoder, '
+               'from two training bytes on it accepts every payload (contexts never seen in training included) and round-trips it, plain and interleaved; the '
+               'order-2 cut keeps min(1024, distinct) contexts, none rarer than one it drops; the parallel front end is an object model - for every history of '
+               'train / encode calls and every stream count the decoder on the text in force returns the payload (there are no lanes in this code: proved '
+               'equal to one HuffmanEncoder); encode_adaptive on its Huffman arms never refuses and round-trips. ~420 further generated cases per run (ops '
+               '7-13) tie these models to the code, incl. damaged serialisations. Only the SIMD encoders and bit_ops are decided by the round-trip oracle '
+               'alone. || rANS / FSE / LZ half: Machine-checked Coq theorems about exact integer models of the rANS-64 coder (byte renormalisation, 1/2/4/8 '
+               'interleaved streams), of the FSE coder of this code base (rANS with 32-bit renormalisation, Alverson reciprocal division, header, stored path, '
+               'block container and its sniffing heuristic) and of the LZ dictionary coder: one encoder step is inverted by one decoder step with the state '
+               'interval as invariant; decode(encode(d)) = d for every well-formed table, every payload, every stream count and every length; the three-pass '
+               'normaliser keeps the table sum at 4096 and every present symbol at >= 1 slot; the reciprocal multiplication is an exact division without u64 '
+               'wrap; the FSE decoder reads four bytes exactly when the encoder wrote four, including the start-up phase; every valid LZ parse decodes to the '
+               'payload whatever the match chooser, and the greedy longest-match search is a sound chooser. Uncovered symbols are refused, never substituted. '
+               'The models are tied to the code by evaluating generated cases in Coq against what the implementation returned (tables, encoder bytes, decoder '
+               'output).',
  'level_note': 'Trusted: Coq kernel + vm_compute; the hand-written model; the harness (generators, the serialize() parser, the dumb round-trip oracle). The '
                'heap construction is a parameter of the theorems, not trusted. || Trusted: Coq kernel + vm_compute; hand-written models; harness generators '
                'and the round-trip oracle; the f64 FSE normaliser is a parameter of the theorems (its table is read from the real code per case).',
@@ -124,7 +156,8 @@ P = {'id': 'C01',
               'replayed on the real code; model/implementation differential check; direct round-trip oracle over every codec, preset, stream count and '
               'training relation; oracle breadth: one encoder / decoder object per case driven through histories of different operations and payloads '
               '(trained, cached and reloaded models), every preset and option field, size thresholds up to 28 MB, symbol-level APIs against the block APIs',
- 'explanation': 'Unbounded round-trip theorems for Huffman order-0, contextual orders 0/1/2 and interleaved x1/x2/x4/x8 over arbitrary trees; oracle for SIMD '
-                '/ parallel / serialised forms. Unbounded round-trip theorems for rANS (n streams), FSE (single block and container, any normaliser) and LZ '
+ 'explanation': 'Unbounded round-trip theorems for Huffman order-0, contextual orders 0/1/2 and interleaved x1/x2/x4/x8 over arbitrary trees, across serialize '
+                '/ deserialize, from the context constructors on (every training text x every payload), and for the parallel / adaptive front ends over object '
+                'histories; oracle only for SIMD. Unbounded round-trip theorems for rANS (n streams), FSE (single block and container, any normaliser) and LZ '
                 '(any sound match chooser); round-trip oracle for every entry point; eight defects found and repaired (findings/C01_b.txt).',
  'coq_deps': ['C02']}
